@@ -193,6 +193,10 @@ class Signed(BitVector):
         if isinstance(rhs, (int, Integer)):
             rhs = Integer.decay(rhs)
             target_width = self.width
+        elif isinstance(rhs, Signed) and rhs.width < self.width:
+            # sign-extend before negating, otherwise the minimal value
+            # of the narrower type is negated in its own width
+            rhs = Signed[self.width](rhs)
 
         rhs = -rhs
         return self.add(rhs, target_width)
